@@ -200,7 +200,7 @@ structure Inv {α} (cap : Option Nat) (n : Nat) (seq : Nat → List α) (s : CSt
   fin : ∀ t, t < n → (s.tasks t).finished = true → (s.tasks t).remaining = []
   phase : s.phase ≠ .waiting → ∀ t, t < n → (s.tasks t).finished = true
   total : ∀ t, t < n → (s.tasks t).total = (seq t).length
-  drained : s.phase = .purge ∨ s.phase = .returned → s.queue = []
+  drained : s.phase = .returned → s.queue = []
 
 theorem inv_init {α} (cap : Option Nat) (FLUSH MAXB n : Nat) (hk : 1 ≤ MAXB) (seq : Nat → List α) :
     Inv cap n seq (CState.init cap FLUSH MAXB n seq) where
@@ -350,7 +350,7 @@ theorem inv_finish {α} {cap : Option Nat} {n : Nat} {seq : Nat → List α} {s 
 
 theorem inv_get {α} {cap : Option Nat} {n : Nat} {seq : Nat → List α} {s : CState α}
     (hi : Inv cap n seq s) {src : Nat} {b : List α} {rest : List (Nat × List α)}
-    (htf : takeFirst src s.queue = some (b, rest)) :
+    (hp : s.phase ≠ .returned) (htf : takeFirst src s.queue = some (b, rest)) :
     Inv cap n seq { s with queue := rest,
                            collected := updC s.collected src (s.collected src ++ b),
                            ncollected := s.ncollected + b.length } := by
@@ -392,10 +392,7 @@ theorem inv_get {α} {cap : Option Nat} {n : Nat} {seq : Nat → List α} {s : C
     simp only [List.length_append] at this ⊢
     omega
   · intro h
-    dsimp only at h
-    have := hi.drained h
-    rw [this] at htf
-    simp [takeFirst] at htf
+    exact absurd h hp
 
 theorem all_finished_of {α} (s : CState α)
     (h : (List.range s.ntasks).all (fun t => (s.tasks t).finished) = true) :
@@ -414,12 +411,13 @@ theorem inv_stop {α} {cap : Option Nat} {n : Nat} {seq : Nat → List α} {s : 
   · intro h; simp at h
 
 theorem inv_exit {α} {cap : Option Nat} {n : Nat} {seq : Nat → List α} {s : CState α}
-    (hi : Inv cap n seq s) (hp : s.phase ≠ .waiting) (hq : s.queue = []) (p : CPhase) :
+    (hi : Inv cap n seq s) (hp : s.phase ≠ .waiting) (p : CPhase)
+    (hq : p = .returned → s.queue = []) :
     Inv cap n seq { s with phase := p } := by
   refine ⟨hi.ntasks, hi.cap, hi.data, hi.out, hi.qsrc, hi.ncol, hi.exp, hi.fin, ?_, hi.total, ?_⟩
   · intro _ t ht
     exact hi.phase hp t ht
-  · intro _; exact hq
+  · intro h; exact hq h
 
 theorem inv_step {α} {cap : Option Nat} {n : Nat} {seq : Nat → List α} {s s' : CState α}
     {l : CLbl} (hi : Inv cap n seq s) (h : cstep s l = some s') : Inv cap n seq s' := by
@@ -446,11 +444,12 @@ theorem inv_step {α} {cap : Option Nat} {n : Nat} {seq : Nat → List α} {s s'
   | threadGet src =>
     simp only [cstep] at h
     split at h
-    · split at h
+    · rename_i hg
+      split at h
       · rename_i b rest htf
         simp only [Option.some.injEq] at h
         subst h
-        exact inv_get hi htf
+        exact inv_get hi (by rcases hg with hg | hg <;> rw [hg] <;> simp) htf
       · simp at h
     · simp at h
   | stopThread =>
@@ -467,16 +466,17 @@ theorem inv_step {α} {cap : Option Nat} {n : Nat} {seq : Nat → List α} {s s'
     · rename_i hg
       simp only [Option.some.injEq] at h
       subst h
-      exact inv_exit hi (by rw [hg.1]; simp) (by simpa using hg.2) _
+      exact inv_exit hi (by rw [hg]; simp) _ (by simp)
     · simp at h
   | purgeGet src =>
     simp only [cstep] at h
     split at h
-    · split at h
+    · rename_i hg
+      split at h
       · rename_i b rest htf
         simp only [Option.some.injEq] at h
         subst h
-        exact inv_get hi htf
+        exact inv_get hi (by rw [hg]; simp) htf
       · simp at h
     · simp at h
   | purgeExit =>
@@ -485,7 +485,7 @@ theorem inv_step {α} {cap : Option Nat} {n : Nat} {seq : Nat → List α} {s s'
     · rename_i hg
       simp only [Option.some.injEq] at h
       subst h
-      exact inv_exit hi (by rw [hg.1]; simp) (by simpa using hg.2.1) _
+      exact inv_exit hi (by rw [hg.1]; simp) _ (fun _ => by simpa using hg.2.1)
     · simp at h
 
 theorem inv_run {α} {cap : Option Nat} {n : Nat} {seq : Nat → List α} (ls : List CLbl) :
@@ -542,16 +542,16 @@ theorem progress {α} {cap : Option Nat} {n : Nat} {seq : Nat → List α} {s : 
   cases hph : s.phase with
   | returned => exact absurd hph hp
   | purge =>
-    have hq := hi.drained (Or.inl hph)
-    have hall := hi.phase (by rw [hph]; simp)
-    have hle : s.expected ≤ s.ncollected := Nat.le_of_eq (counts_agree hi hall hq)
-    exact ⟨.purgeExit, Option.isSome_iff_exists.mp (by simp [cstep, hph, hq, hle])⟩
-  | stopping =>
     cases hq : s.queue with
-    | nil => exact ⟨.threadExit, Option.isSome_iff_exists.mp (by simp [cstep, hph, hq])⟩
+    | nil =>
+      have hall := hi.phase (by rw [hph]; simp)
+      have hle : s.expected ≤ s.ncollected := Nat.le_of_eq (counts_agree hi hall hq)
+      exact ⟨.purgeExit, Option.isSome_iff_exists.mp (by simp [cstep, hph, hq, hle])⟩
     | cons e q =>
       obtain ⟨src, b⟩ := e
-      exact get_head src b q hq (Or.inr hph)
+      exact ⟨.purgeGet src, Option.isSome_iff_exists.mp (by simp only [cstep, hph, if_true, hq, takeFirst_head, Option.isSome_some])⟩
+  | stopping =>
+    exact ⟨.threadExit, Option.isSome_iff_exists.mp (by simp [cstep, hph])⟩
   | waiting =>
     by_cases hall : (List.range s.ntasks).all (fun t => (s.tasks t).finished) = true
     · exact ⟨.stopThread, Option.isSome_iff_exists.mp (by simp only [cstep, hph, hall, and_self, if_true, Option.isSome_some])⟩
@@ -673,7 +673,7 @@ theorem mu_step {α} {s s' : CState α} {l : CLbl} (h : cstep s l = some s') : m
       subst h
       unfold mu
       dsimp only
-      rw [hg.1]
+      rw [hg]
       simp [rank]
     · simp at h
   | purgeGet src =>
